@@ -82,15 +82,15 @@ def install_wrappers():
         # addresses the kernel is about to touch, by the oracle
         new = list(before)
         new[i:j + 1] = new[i:j + 1][::-1]
-        y2 = exact(m, new)
-        if len(h) != ub + 1:
-            ctx.violation("fea-table-size",
-                          f"len(h) = {len(h)}, upper bound + 1 = {ub + 1}",
-                          STATE["case"])
-            raise Stop
-        if not (0 <= y_before <= ub and 0 <= y2 <= ub):
+        # the two table entries the kernel is about to address: the value it
+        # was handed for the current tour and that value plus the (exact)
+        # length difference of the move
+        y2 = y_before + exact(m, new) - exact(m, before)
+        if not (0 <= y_before <= ub and 0 <= y2 <= ub
+                and y_before < len(h) and y2 < len(h)):
             ctx.violation("fea-table-address-out-of-range",
-                          f"addresses {y_before}, {y2} not in [0, {ub}]",
+                          f"addresses {y_before}, {y2} not in [0, {ub}] or "
+                          f"outside the table of {len(h)} entries",
                           STATE["case"])
             raise Stop
         ctx.seen_max("fea_max_address_over_ub_permille",
@@ -119,11 +119,14 @@ def judge_move(ctx, m, alg, i, j, n, before, y_before, x, r):
                       f"after move ({i},{j}) x = {after}", STATE["case"])
         raise Stop
     want = exact(m, after)
-    if isinstance(r, bool) or int(r) != want:
+    # the kernel maintains the length incrementally: its result must differ
+    # from the value it was handed by exactly the true change of the length
+    # (absolute values are judged where they are registered)
+    if isinstance(r, bool) or int(r) - y_before != want - exact(m, before):
         ctx.violation(f"{alg}-kernel-length-drift",
-                      f"move ({i},{j}) n={n}: kernel returned {r}, exact "
-                      f"length of x is {want} (before: {y_before})",
-                      STATE["case"])
+                      f"move ({i},{j}) n={n}: kernel returned {r} for input "
+                      f"{y_before}, but the tour length changed from "
+                      f"{exact(m, before)} to {want}", STATE["case"])
         raise Stop
     if after != before:
         ctx.count("accepted_moves")
@@ -135,7 +138,7 @@ def judge_move(ctx, m, alg, i, j, n, before, y_before, x, r):
                           f"move ({i},{j}): {before} -> {after}",
                           STATE["case"])
             raise Stop
-        if want == y_before:
+        if want == exact(m, before):
             ctx.count("accepted_ties")
 
 
